@@ -214,6 +214,11 @@ def _fault_list(b):
     for k in range(min(npoll + 1, 40)):
         for kind in ('exc', 'oserror'):
             faults.append({'op': 'poll', 'k': k, 'kind': kind})
+    for k in sorted({0, 1, 2, 5, npoll // 2}):
+        # the descriptor has gone bad under the loop: every wait from the
+        # k-th on fails (a single failure could be retried; this cannot)
+        if k <= npoll:
+            faults.append({'op': 'poll', 'k_from': k, 'kind': 'oserror'})
     lim = min(nbytes, 2500)
     for j in range(0, lim + 1):
         faults.append({'cut_at': j, 'cut_kind': 'eof'})
